@@ -3,9 +3,11 @@ package wl
 import (
 	"encoding/binary"
 	"fmt"
+	"github.com/xelaj/mtproto/internal/session"
 	"os"
 	"path/filepath"
 	"sync"
+	"syscall"
 	"time"
 
 	"github.com/xelaj/mtproto"
@@ -24,13 +26,43 @@ type world struct {
 	keys  *refserver.KeyStore
 	srvs  []*refserver.Server
 	mu    sync.Mutex
-	evs   []core.Event // copy of what was logged, for in-process checkers
+	store session.SessionLoader // non-nil: clients of this world are configured with this storage instead of a file
+	evs   []core.Event          // copy of what was logged, for in-process checkers
 	warns []string
 }
 
 func newWorld(c *wk.Ctx, idx int) *world {
-	d, _ := os.MkdirTemp("", "vw-")
+	// where the session file lives: usually under the temporary directory; in one world out of five on another
+	// filesystem than the temporary directory (a home directory on its own volume, a tmpfs), when the machine has one
+	base := ""
+	if idx%5 == 2 {
+		if o := otherFilesystem(); o != "" {
+			base = o
+			c.Count("worlds.session_on_another_filesystem", 1)
+		}
+	}
+	d, err := os.MkdirTemp(base, "vw-")
+	if err != nil {
+		d, _ = os.MkdirTemp("", "vw-")
+	}
 	return &world{c: c, idx: idx, dir: d, keys: refserver.NewKeyStore()}
+}
+
+// otherFilesystem returns a writable directory on a different device than os.TempDir(), or "".
+func otherFilesystem() string {
+	var t, o syscall.Stat_t
+	if syscall.Stat(os.TempDir(), &t) != nil {
+		return ""
+	}
+	for _, cand := range []string{"/dev/shm", "/run/shm", "/var/tmp", "/run/user/0"} {
+		if syscall.Stat(cand, &o) == nil && o.Dev != t.Dev {
+			if d, err := os.MkdirTemp(cand, "vwprobe-"); err == nil {
+				os.Remove(d)
+				return cand
+			}
+		}
+	}
+	return ""
 }
 
 func (w *world) emit(ev string, d map[string]interface{}) {
@@ -61,7 +93,11 @@ func (w *world) sessionPath(name string) string { return filepath.Join(w.dir, na
 
 // client builds a client on the given session file pointing at addr. Warnings are drained and recorded.
 func (w *world) client(addr, sess string, srv *refserver.Server) (*mtproto.MTProto, error) {
-	m, err := mtproto.NewMTProto(mtproto.Config{AuthKeyFile: sess, ServerHost: addr, PublicKey: &srv.RSA.PublicKey})
+	cfg := mtproto.Config{AuthKeyFile: sess, ServerHost: addr, PublicKey: &srv.RSA.PublicKey}
+	if w.store != nil {
+		cfg = mtproto.Config{SessionStorage: w.store, ServerHost: addr, PublicKey: &srv.RSA.PublicKey}
+	}
+	m, err := mtproto.NewMTProto(cfg)
 	if err != nil {
 		return nil, err
 	}
